@@ -1,5 +1,5 @@
 package main
 
-type RotCase struct{}
+
 type HistCase struct{}
 type BkmCase struct{}
